@@ -7,7 +7,9 @@ import decsuite as ds
 import msggen
 
 THEOREMS = ["C03.c03_anticipated", "C03.c03_exceeded", "C03.c03_subceeded", "C03.c03_exact_ok", "C08.c08_skip_exceeded",
-            "decode_ok", "runWalker_acct"]
+            "decode_ok", "runWalker_acct",
+            "C03.c03_tables", "decode_sound", "C03.c03_accept_only_if", "C03.c03_accept_iff", "decodeCommand_sound", "decodeResponse_sound",
+            "AcceptIff.tables_wf", "AcceptIff.type_accept_iff", "AcceptIff.command_accept_iff", "AcceptIff.response_accept_iff"]
 
 
 def governed(lines, L, total_len):
@@ -134,6 +136,6 @@ def run(ctx, replay_case):
     })
 
 
-PROP = {"targets": ["TpmProofs.Props.C03"], "module": "TpmProofs.Props.C03", "theorems": THEOREMS, "run": run,
+PROP = {"targets": ["TpmProofs.Props.AcceptIff"], "module": "TpmProofs.Props.AcceptIff", "theorems": THEOREMS, "run": run,
         "assumptions": ["'earliest decidable point' over whole nested messages is covered by the per-step theorems + the monitor's consistency checks + "
                         "correspondence with the model; the refinement of the counter machine to an offset-based region spec is not proved yet"]}
